@@ -65,6 +65,10 @@ def gen_case(seed, tier, index=0):
             # several patterns in one paragraph where one matches a proper prefix of what another matches
             pats = list(rng.pick(PATTERN_GROUPS))
         cr = [f"{rng.pick(['2019', '2020-2022', ''])} {rng.pick(G.HOLDERS)}".strip() for _ in range(rng.randint(1, 3))]
+        if rng.chance(0.08):
+            # characters that str.splitlines() takes for line ends and deb822 does not (form feed, NEL, U+2028, ...)
+            sep = rng.pick(["\x0c", "\x85", "\u2028", "\x0b", "\x1c", "\u2029"])
+            cr[0] = f"2020 Jane Doe{sep}2021 John Doe"
         p = {"files": pats if len(pats) > 1 else pats[0], "copyright": cr if len(cr) > 1 else cr[0],
              "license": rng.pick(G.VALID + ["MIT or 0BSD", "LicenseRef-Custom", "GPL-3.0-or-later WITH Classpath-exception-2.0"])}
         if rng.chance(0.3):
